@@ -179,7 +179,7 @@ def build_harness(scr, name, sources, repo_sources=(), flags=(), libs=('-lgmpxx'
     if os.path.exists(exe):
         return exe, None, 0.0
     t0 = time.time()
-    cmd = (['g++', '-std=gnu++17', '-O0', '-DEPSIC_VERIF', '-w'] + (SAN if sanitize else []) + list(flags) +
+    cmd = (['g++', '-std=gnu++17', '-O0', '-DEPSIC_VERIF', '-w', '-pthread'] + (SAN if sanitize else []) + list(flags) +
            ['-I' + scr.util, '-I' + scr.src, '-I' + hdir] + hfiles + [os.path.join(scr.src, r) for r in repo_sources] +
            list(libs) + ['-o', exe + '.tmp'])
     p = subprocess.run(cmd, stdout=subprocess.PIPE, stderr=subprocess.STDOUT, text=True)
